@@ -42,6 +42,9 @@ func c02Values() []c02Value {
 	newS := func() interface{} { return &sessions.SessionState{} }
 	return []c02Value{
 		{"session-empty", &sessions.SessionState{}, newS},
+		// what the proxy stores for an upstream without a group rule: groups empty but not nil
+		{"session-empty-non-nil-groups", &sessions.SessionState{ProviderSlug: "idp", Email: "carol@other.test", User: "carol", AccessToken: "access-token-value-0002",
+			LifetimeDeadline: now.Add(time.Hour), RefreshDeadline: now.Add(time.Minute), ValidDeadline: now.Add(time.Second), Groups: []string{}, AuthorizedUpstream: "a.sso.test"}, newS},
 		{"session-small", &sessions.SessionState{ProviderSlug: "idp", Email: "carol@other.test", User: "carol", AccessToken: "access-token-value-0001", RefreshToken: "refresh-token-value-0001",
 			LifetimeDeadline: now.Add(time.Hour), RefreshDeadline: now.Add(time.Minute), ValidDeadline: now.Add(time.Second), Groups: []string{"eng"}, AuthorizedUpstream: "a.sso.test"}, newS},
 		{"session-unicode", &sessions.SessionState{ProviderSlug: "idp", Email: "jörg.müller@exämple.com", User: "jörg.müller", AccessToken: strings.Repeat("tökén", 40), Groups: []string{"ünïcode-group"}}, newS},
@@ -99,6 +102,10 @@ func c02Run(c *fw.Ctx) {
 		panic(err)
 	}
 
+	storeK2, err := sessions.NewCookieStore(harness.CookieName, sessions.CreateMiscreantCookieCipher(k2))
+	if err != nil {
+		panic(err)
+	}
 	if c.Replay != nil {
 		var d struct {
 			Key, Candidate, API, Value string
@@ -191,6 +198,26 @@ func c02Run(c *fw.Ctx) {
 						viol("opens/"+cd.Op+"/"+api, fmt.Sprintf("%s of a genuine %s: %s", cd.Op, v.Name, what), kn, api, v.Name, cd.Str)
 					}
 				}
+			}
+			// at the cookie store: the store holding the sealing key loads the value back unchanged, and AFTER it
+			// has done so, a store holding another key still rejects the very same cookie
+			if strings.HasPrefix(v.Name, "session") && (kn == "K1" || kn == "K2") {
+				own, other := store, storeK2
+				if kn == "K2" {
+					own, other = storeK2, store
+				}
+				req, _ := http.NewRequest("GET", "http://a.sso.test/", nil)
+				req.Header.Set("Cookie", harness.CookieName+"="+sealed)
+				c.Res.Execs += 2
+				if got, err := own.LoadSession(req); err != nil || !reflect.DeepEqual(got, v.Val) {
+					viol("round-trip-at-store/"+v.Name, fmt.Sprintf("the cookie store does not load back what was sealed (err=%v)", err), kn, "LoadSession", v.Name, sealed)
+				} else {
+					c.Res.Count("positive_round_trips_at_store", 1)
+				}
+				if got, err := other.LoadSession(req); err == nil || got != nil {
+					viol("opens/other-key-at-store", fmt.Sprintf("a cookie sealed under %s, once loaded by its own store, was loaded by a store holding another key (err=%v)", kn, err), kn, "LoadSession", v.Name, sealed)
+				}
+				c.Res.Outcome("other-key-at-store|" + kn)
 			}
 			// other keys and the other service's cipher
 			for on, oc := range ciphers {
@@ -412,8 +439,8 @@ func init() {
 	fw.Register(&fw.Check{
 		ID:    "C02",
 		Level: "exploration",
-		Rule: "for 6 genuine values (empty session, small session, unicode session, 50-group session with long tokens, 300-group session of >16 KiB, flow record) sealed by the real MiscreantCipher under 32- and 64-byte keys and presented to 8 other keys (unrelated keys and neighbours differing in the first / last / 33rd byte or in one half): every single-bit flip of every byte, every prefix/suffix truncation of the string and of the bytes, " +
-			"extension by every byte value and every alphabet character at either end, every single-character substitution from the base64url alphabet plus '=+/ LF', CR/LF insertion at every position, re-encodings and re-padding, other spellings (percent-encoding of one / every character, twice, lower-case hex; an HTML entity; double quotes; a BOM; + for -; upper case), presentation under every other key (thorough: all double-bit flips of two values); " +
+		Rule: "for 7 genuine values (empty session, session with empty non-nil groups, small session, unicode session, 50-group session with long tokens, 300-group session of >16 KiB, flow record) sealed by the real MiscreantCipher under 32- and 64-byte keys and presented to 8 other keys (unrelated keys and neighbours differing in the first / last / 33rd byte or in one half): every single-bit flip of every byte, every prefix/suffix truncation of the string and of the bytes, " +
+			"extension by every byte value and every alphabet character at either end, every single-character substitution from the base64url alphabet plus '=+/ LF', CR/LF insertion at every position, re-encodings and re-padding, other spellings (percent-encoding of one / every character, twice, lower-case hex; an HTML entity; double quotes; a BOM; + for -; upper case), presentation under every other key, also at the cookie store after the value's own store has loaded it (thorough: all double-bit flips of two values); " +
 			"each candidate goes to Cipher.Unmarshal, sessions.UnmarshalSession and CookieStore.LoadSession. Oracle: a candidate that is not a string sso itself produced must be rejected with an error and yield no data; genuine values round-trip deep-equal; seals are pairwise distinct (1200 seals of two values, 8 of the others); sealed bytes contain neither plaintext fields nor the compressed plaintext. " +
 			"distinct_nontrivial = distinct (corruption operator, API, rejected?) triples",
 		Assumptions:    []string{"AES-CMAC-SIV (miscreant) is trusted: unforgeability against arbitrary strings is not decided by enumeration", "positions of long values are sub-sampled every 7th character in the quick tier (all positions in thorough)"},
